@@ -80,11 +80,14 @@ Definition what_of (file : string) (r : string) (l c : Z) : string :=
 Definition instr_eval_name : string := "instr eval".
 
 (* ------------------------------------------------------------------ grammar-layer state *)
-Record pstate := mkPS { stk : list pnode; fname : string }.
+(* `ticks` is a ghost counter: the number of grammar-function invocations (calls through `P`) so far; nothing reads it *)
+Record pstate := mkPS { stk : list pnode; fname : string; ticks : N }.
 Definition PM := M pstate.
 
 Definition get_stack : PM (list pnode) := fun s => Ok (stk (user s), s).
-Definition set_stack (l : list pnode) : PM unit := fun s => Ok (tt, mkState (pos s) (depth s) (mkPS l (fname (user s)))).
+Definition set_stack (l : list pnode) : PM unit := fun s => Ok (tt, mkState (pos s) (depth s) (mkPS l (fname (user s)) (ticks (user s)))).
+Definition tick (s : state pstate) : state pstate :=
+  mkState (pos s) (depth s) (mkPS (stk (user s)) (fname (user s)) (ticks (user s) + 1)%N).
 Definition get_fname : PM string := fun s => Ok (fname (user s), s).
 Definition stack_size : PM nat := st <- get_stack ;; ret (List.length st).
 Definition push (n : pnode) : PM unit := st <- get_stack ;; set_stack (st ++ [n])%list.
@@ -813,8 +816,8 @@ Section Grammar.
        the depth counter is shared *)
     Definition Instr_b (text : list N) : PM bool :=
       fun s =>
-        match parse_internal_b (mkState (pos_begin text) (depth s) (mkPS [] instr_eval_name)) with
-        | Ok (n, s') => Ok (true, mkState (pos s) (depth s') (mkPS (stk (user s) ++ [n])%list (fname (user s))))
+        match parse_internal_b (mkState (pos_begin text) (depth s) (mkPS [] instr_eval_name (ticks (user s)))) with
+        | Ok (n, s') => Ok (true, mkState (pos s) (depth s') (mkPS (stk (user s) ++ [n])%list (fname (user s)) (ticks (user s'))))
         | Err r l c => Err r l c
         | Crash k => Crash k
         | OutOfFuel => OutOfFuel
@@ -856,7 +859,7 @@ Section Grammar.
   Fixpoint P (fuel : nat) (nt : NT) : PM bool :=
     match fuel with
     | O => fun _ => OutOfFuel
-    | S f => body (P f) nt
+    | S f => fun s => body (P f) nt (tick s)
     end.
 
   (* call depth: at most one uncounted frame (parse_instr_eval + parse_internal) between two Depth_Counters *)
@@ -864,7 +867,7 @@ Section Grammar.
 
   (* ChaiScript_Parser::parse(t_input, t_fname): a fresh parser (depth 0, empty match stack) runs parse_internal *)
   Definition parse_full (bytes : list N) (file : string) : outcome (pnode * state pstate) :=
-    parse_internal_b (P parse_fuel) (mkState (pos_begin bytes) 0 (mkPS [] file)).
+    parse_internal_b (P parse_fuel) (mkState (pos_begin bytes) 0 (mkPS [] file 0%N)).
   Definition parse (bytes : list N) (file : string) : outcome pnode :=
     match parse_full bytes file with
     | Ok (n, _) => Ok n
